@@ -635,6 +635,13 @@ def run_differential(A, B, domains, pairs, mode="value", compare_entities=True, 
                 "detail": {"problem": f"only build {tag} is rejected: {str(rej[tag])[:300]}", "srcA": srcs["A"],
                            "srcB": srcs["B"], "optsA": A["opts"], "optsB": B["opts"]}}
     (ca, ia, pa), (cb, ib, pb) = built["A"], built["B"]
+    if bool(pa) != bool(pb) and ("specialised" in pa or "specialised" in pb):
+        # exactly one build depends on the declared VALUES of the inputs (it folded an input): the two builds
+        # cannot be observationally equal for all input values
+        who = "A" if pa else "B"
+        return {"status": "fail", "digest": sha(["one-specialised", who]), "outcome": "one-specialised",
+                "detail": {"problem": f"build {who} is specialised on the declared input values (an input was folded), the other is not",
+                           "srcA": srcs["A"], "srcB": srcs["B"], "optsA": A["opts"], "optsB": B["opts"]}}
     if pa or pb:
         return {"status": "inconclusive", "outcome": "specialised", "detail": f"{pa} {pb}"}
     va = {a: observe.output_view(ca, a) for a, _ in pairs}
